@@ -66,7 +66,8 @@ fn fill(t: &Tpl, r0: u32, r1: u32) -> String {
 }
 
 fn number_sets(k: usize) -> Vec<Vec<u32>> {
-    let u = [0u32, 5, 10, 20, 100, 65000];
+    // (65529 is the last line number)
+    let u = [0u32, 5, 10, 20, 100, 65529];
     let mut out = vec![];
     for mask in 1u32..(1 << u.len()) {
         if mask.count_ones() as usize == k {
@@ -176,9 +177,29 @@ fn judge(case: &Case, cmd: &(String, u32, u32, u32), ctx: &mut Ctx) {
         }
         let typed = s.listing_text();
         s.take();
+        // what the program does before renumbering (a short run; programs that list or delete
+        // lines show numbers or change themselves and are left out)
+        let behaves = !cmd.0.contains(',') && before.len() <= 2 && !before.iter().any(|l| l.contains("LIST") || l.contains("DELETE"));
         s.enter(&cmd.0);
         let ev = s.take();
         let after = s.listing_text();
+        if behaves {
+            // in a session of its own: RUN, RENUM, RUN
+            let mut b = Session::with(50, 4);
+            for l in &before {
+                b.enter(l);
+            }
+            b.take();
+            b.enter("RUN");
+            let pre = super::common::strip_lines(&super::c01::render_impl(&b.take()).0);
+            b.enter(&cmd.0);
+            b.take();
+            b.enter("RUN");
+            let post = super::common::strip_lines(&super::c01::render_impl(&b.take()).0);
+            if post != pre {
+                return (typed, after, ev, format!("BEHAVIOUR before: {}", pre), format!("BEHAVIOUR after: {}", post));
+            }
+        }
         // what runs afterwards is the renumbered program: the same commands in a fresh
         // interpreter fed the new listing must give the same transcript
         let first = after.first().and_then(|l| l.split(' ').next()).unwrap_or("0").to_string();
@@ -268,7 +289,8 @@ impl Sweep for Programs {
         let nums = sets[shard / nt].clone();
         let first = shard % nt;
         let args = arg_triples(self.all_args);
-        let nr = if self.k >= 3 { nt - LATE } else { nt };
+        // (in the quick tier the six decoy templates are also left to the first line of three-line programs)
+        let nr = if self.k >= 3 { nt - LATE - if self.all_args { 0 } else { 6 } } else { nt };
         let total = nr.pow(self.k as u32 - 1);
         for idx in 0..total {
             let mut tpls = vec![first];
